@@ -317,6 +317,12 @@ func annoCases(c *core.Ctx) []annoCase {
 		{name: "ribosomal slippage: a join that reads base 6 twice, listed before a gene that starts upstream of it",
 			gff: []*eval.StructVal{mkGFFFeature(c, "CDS", 4, 6, "+", 0, A("ID", "c1", "Name", "g1")), mkGFFFeature(c, "CDS", 6, 14, "+", 0, A("ID", "c1", "Name", "g1")), mkGFFFeature(c, "CDS", 1, 9, "+", 0, A("ID", "c2", "Name", "g2"))},
 			gb:  []gbFeature{{"CDS", "join(4..6,6..14)", "g1", 1}, {"CDS", "1..9", "g2", 1}}},
+		{name: "a joined gene whose rows are interleaved with the row of an overlapping gene (a coordinate-sorted file)",
+			gff: []*eval.StructVal{mkGFFFeature(c, "CDS", 4, 6, "+", 0, A("ID", "c1", "Name", "g1")), mkGFFFeature(c, "CDS", 5, 13, "+", 0, A("ID", "c2", "Name", "g2")), mkGFFFeature(c, "CDS", 6, 14, "+", 0, A("ID", "c1", "Name", "g1"))},
+			gb:  []gbFeature{{"CDS", "join(4..6,6..14)", "g1", 1}, {"CDS", "5..13", "g2", 1}}},
+		{name: "a mature peptide written on two rows that share an ID, inside its polyprotein",
+			gff: []*eval.StructVal{mkGFFFeature(c, "CDS", 1, 18, "+", 0, A("ID", "c1", "Name", "poly")), mkGFFFeature(c, "mature_protein_region_of_CDS", 4, 9, "+", 0, A("ID", "m1", "Name", "mp")), mkGFFFeature(c, "mature_protein_region_of_CDS", 13, 18, "+", 0, A("ID", "m1", "Name", "mp"))},
+			gb:  []gbFeature{{"CDS", "1..18", "poly", 1}, {"CDS", "join(4..9,13..18)", "mp", 1}}},
 		{name: "gene plus non-CDS features",
 			gff: []*eval.StructVal{mkGFFFeature(c, "gene", 1, 24, "+", 0, A("ID", "gene1", "Name", "g1")), mkGFFFeature(c, "CDS", 4, 12, "+", 0, A("ID", "c1", "Name", "g1"))},
 			gb:  []gbFeature{{"gene", "1..24", "g1", 0}, {"CDS", "4..12", "g1", 1}}},
@@ -715,6 +721,14 @@ func C11(c *core.Ctx) {
 	c.Count("pairs_evaluated", n)
 	c.Ob("R1/workers-agree-on-every-pair", len(bad) == 0, samW.Pos(), "%s", first(bad, 3))
 	checkReaders(c, tabs, "R9/", true, "findReference") // the record `variants` compares everything with is the one named, as in sam variants
+	// the two forms of one alignment differ in what stands where the query has no base (N in the pair sam variants builds,
+	// '-' at the ends of a toMultiAlign row): every difference of the columns both forms share is reported from either,
+	// so no SNP of a pair may be dropped or invented whatever else its codon contains (the family of C04)
+	if v := runVariantsFamily(c, tabs); len(v.und) == 0 {
+		c.Ob("R10/GetVariantsPair/no-snp-dropped-none-invented", len(v.badSNP) == 0, funcPos(c, "pkg/variants", "getAAsPair"), "%s", first(v.badSNP, 3))
+	} else {
+		c.Und("R10/GetVariantsPair/no-snp-dropped-none-invented", funcPos(c, "pkg/variants", "getAAsPair"), "cannot evaluate: %s", first(v.und, 2))
+	}
 	checkSamWorkerStateless(c, tabs, "R1")
 	checkFastaWorkerStateless(c, tabs, "R1")
 	c11Structure(c)
